@@ -4,5 +4,5 @@ set -eu
 cd /verif
 export CARGO_NET_OFFLINE=true
 mkdir -p .work evidence
-( cd harness && cargo build --offline -p rtprops )
+( cd harness && cargo build --offline -p rtprops -p cprops )
 echo "setup done"
